@@ -534,10 +534,15 @@ pub fn run_faults(args: &Args, mut out: Out) {
     // (the first answer is a 200 or, for the fault cases, also a 503: a 5xx closes the write side when it SUCCEEDS, and a
     // failed one must do no less)
     for (what, actual, code) in [("short", 0usize, 200u16), ("short", n / 2, 200), ("short", n - 1, 200), ("missing", 0, 200), ("short", n / 2, 503),
-                                 ("short", 0, 500), ("missing", 0, 503), ("dup_header", n, 200), ("not_normal", n, 200), ("ok", n, 200)] {
+                                 ("short", 0, 500), ("missing", 0, 503), ("dup_header", n, 200), ("not_normal", n, 200), ("ok", n, 200), ("long", n + 1, 200), ("long", n + 70_000, 200)] {
         sid += 1;
         let p = dir.path().join(format!("c{sid}"));
-        if what != "missing" {
+        if what == "long" {
+            // the file holds more than the response declares: exactly the declared bytes go out, the exchange is an ordinary one
+            let mut longer = body.clone();
+            longer.extend(std::iter::repeat(b'+').take(actual - n));
+            std::fs::write(&p, &longer).unwrap();
+        } else if what != "missing" {
             std::fs::write(&p, &body[..actual]).unwrap();
         }
         let resp = match what {
